@@ -491,8 +491,9 @@ pub fn lib_answer_ord<R: std::ops::Deref<Target = Transaction>>(
             let annex_v = match annex {
                 Some(a) => match guard::guard("Annex::new", a.len(), || Annex::new(a)) {
                     Ok(Ok(x)) => Some(x),
-                    Ok(Err(e)) => return Ok((Answer::Skipped(format!("Annex::new refused a 0x50-prefixed annex: {}", e)), None)),
-                    Err(f) => return Ok((Answer::Skipped(format!("Annex::new: {}", f.msg)), None)),
+                    // the statement quantifies over annexes: a well-formed one (first byte 0x50) must be usable
+                    Ok(Err(e)) => return Err(Failure::new(format!("Annex::new rejected a 0x50-prefixed annex of {} bytes, so its taproot sighash cannot be asked for: {}", a.len(), e))),
+                    Err(f) => return Err(f),
                 },
                 None => None,
             };
@@ -504,7 +505,7 @@ pub fn lib_answer_ord<R: std::ops::Deref<Target = Transaction>>(
                     } else {
                         match LeafVersion::from_u8(*v) {
                             Ok(v) => v,
-                            Err(e) => return Ok((Answer::Skipped(format!("LeafVersion::from_u8({:#x}) refused: {}", v, e)), None)),
+                            Err(e) => return Err(Failure::new(format!("LeafVersion::from_u8({:#x}) refused a valid leaf version, so the script-path sighash cannot be asked for: {}", v, e))),
                         }
                     };
                     match api {
@@ -1132,7 +1133,7 @@ pub fn property() -> Property {
                demanded only for a single spent output with a type that needs all of them and for taproot SINGLE without \
                output. Queries outside the quantifier (Prevouts::All of the wrong length, One for another input under \
                ANYONECANPAY, input index beyond the inputs) are put to a throw-away cache only and the outcome is \
-               counted, not judged (classes not-stated:*); a refusal by Annex::new / LeafVersion::from_u8 is counted (skipped:*), not judged. \
+               counted, not judged (classes not-stated:*); a refusal of a 0x50-prefixed annex by Annex::new or of a valid leaf version by LeafVersion::from_u8 is a failure (the statement quantifies over annexes and script paths). \
                differential_x: the same check over extended generators: script code / leaf script / annex / one spent \
                script / one output script of length 0xfc,0xfd,0xfe,0xff,0x100,0x1fd and rarely 0xffff,0x10000,0x10001; \
                0xfc/0xfd/0xfe inputs or outputs (1/40 each); inputs whose issuance is null by value but has entropy / \
